@@ -257,16 +257,14 @@ func (t *HHWheelTimer) addNode(node *WheelTimerNode) {
 	if ticks < 0 {
 		ticks = 0
 	}
-	var idx uint32
-	if n := int64(t.currTick)+ticks; n > math.MaxUint32 {
-		idx = math.MaxUint32
-	} else {
-		idx = uint32(n)
+	if ticks > math.MaxUint32 {
+		ticks = math.MaxUint32 // looked at again when its bucket cascades
 	}
+	var idx = t.currTick + uint32(ticks) // expiry tick, wraps like currTick
 
 	var bucket *WheelTimerBucket
-	if idx < TVR_SIZE {
-		bucket = &t.near[idx]
+	if ticks < TVR_SIZE {
+		bucket = &t.near[idx&TVR_MASK]
 	} else if ticks < 1<<(TVR_BITS+TVN_BITS) {
 		idx = (idx >> (TVR_BITS)) & TVN_MASK
 		bucket = &t.tvec[0][idx]
@@ -299,22 +297,19 @@ func (t *HHWheelTimer) cascade(level, idx int) {
 
 func (t *HHWheelTimer) shiftWheels() {
 	var ct = t.currTick
-	if ct == 0 { // uint32 overflow
-		t.cascade(3, 0)
+	if ct&TVR_MASK != 0 {
 		return
 	}
-	var mask = uint32(TVR_SIZE)
+	// the near wheel wrapped: cascade the slot that comes up at each level,
+	// going one level further only when that level wrapped too (slot 0)
 	var ticks = ct >> TVR_BITS
-	var i = 0
-	for (ct & (mask - 1)) == 0 {
+	for i := 0; i < WHEEL_LEVEL; i++ {
 		var idx = int(ticks & TVN_MASK)
+		t.cascade(i, idx)
 		if idx != 0 {
-			t.cascade(i, idx)
 			break
 		}
-		mask <<= TVN_BITS
 		ticks >>= TVN_BITS
-		i++
 	}
 }
 
